@@ -5,6 +5,7 @@ import lib
 from props import _match_common as mc
 
 ID = "C03"
+REPEAT_PROBE = True   # engine: repeat 1 call in 5 after editing its first result in place (purity / no shared state)
 PROPS = "Props/C03.v"
 MODEL_FILES = mc.MODEL_FILES
 IMPORTS = mc.IMPORTS
